@@ -41,10 +41,6 @@ func fuzzCheck(c Case) error {
 	if err == nil || errors.Is(err, errSkip) {
 		return nil
 	}
-	var be *beyondError
-	if errors.As(err, &be) && strings.TrimSpace(be.text) == "" {
-		return nil // listed known class C06-K6 (position on an empty line of an embedded document)
-	}
 	return err
 }
 
